@@ -1126,6 +1126,7 @@ func init() {
 			c.ParticipantsAsSent("C12") // every participant records the participant list the initiator sent
 			c.ParticipantCount("C12")
 			c.PolynomialFresh("C12")
+			c.OneInstance("C12", "fetcher", "process") // the cache the new account is added to is the one the signer and the lister read
 			c.ImportUnderSessionLock("C12")
 			c.ContributionRules("C13") // the account an instance stores is built from every participant's verified contribution, under the session lock
 			c.SessionLifecycle("C13")
